@@ -111,6 +111,7 @@ type addrCase struct {
 	Grafts       string // placeholder text for info/grafts
 	GraftsEnv    bool   // the graft text goes to a file outside the repository that the caller's GIT_GRAFT_FILE names
 	Shallow      bool
+	PackRefs     bool // `git pack-refs --all --prune` before anything is measured: refs/replace/ exists but is empty
 	ShallowEmpty bool // the shallow file exists but is empty (a stale marker): still refused, still untouched
 }
 
@@ -133,6 +134,10 @@ func genAddrCase(rng *rand.Rand, id, flavour string) addrCase {
 	}
 	ac := addrCase{ID: id, Flavour: flavour}
 	mainTree := g.Commits[nc-1].Tree
+	if strings.HasSuffix(flavour, "-packed") {
+		ac.PackRefs = true
+		flavour = strings.TrimSuffix(flavour, "-packed")
+	}
 	switch flavour {
 	case "plain":
 	case "replace-commit":
@@ -261,6 +266,14 @@ func buildLayout(base string, ac *addrCase) (*addrLayout, *gitrepo.Repo, error) 
 		os.WriteFile(l.EnvGraftFile, []byte(expandPlaceholders(ac.Grafts, repo)), 0o644)
 	} else if ac.Grafts != "" {
 		os.WriteFile(filepath.Join(l.GitDir, "info", "grafts"), []byte(expandPlaceholders(ac.Grafts, repo)), 0o644)
+	}
+	if ac.PackRefs {
+		cmd := exec.Command("/usr/bin/git", "pack-refs", "--all", "--prune")
+		cmd.Dir = l.Top
+		cmd.Env = gitrepo.GitEnv(base)
+		if out, err := cmd.CombinedOutput(); err != nil {
+			return nil, nil, fmt.Errorf("git pack-refs: %v: %s", err, out)
+		}
 	}
 	// linked worktree (created by git itself)
 	l.Worktree = filepath.Join(base, "wt")
@@ -402,7 +415,7 @@ func checkC13(c *Ctx) {
 	env := newScanEnv(c, true, false)
 	e := &c10Env{c: c, env: env, fake: buildFakeGit(c)}
 	rng := rand.New(rand.NewSource(c.Seed))
-	flavours := []string{"plain", "replace-commit", "replace-commit-smaller", "replace-tree", "replace-blob", "graft-add", "graft-drop", "graft-redirect", "graft-env-add", "graft-env-redirect", "shallow", "shallow-empty"}
+	flavours := []string{"plain", "replace-commit", "replace-commit-smaller", "replace-tree", "replace-blob", "graft-add", "graft-drop", "graft-redirect", "graft-env-add", "graft-env-redirect", "replace-commit-packed", "replace-blob-packed", "replace-tree-packed", "shallow", "shallow-empty"}
 	rounds := 1
 	if !quick(c) {
 		rounds = 5
